@@ -5,6 +5,7 @@ import ast
 
 from ..codec import check_optional_int_truthiness, check_sequences
 from ..core import Ctx, RuleResult, anchor_files, rule
+from ..kit import own_nodes
 from ..model import UNKNOWN, AnalysisError, mangle, unparse
 
 
@@ -110,6 +111,9 @@ def r14_3_compact_milliseconds(ctx: Ctx) -> RuleResult:
         arms.setdefault(ev["pc"], []).append(ev)
     if len(arms) < 4:
         rr.fail(f.qual, f"expected 4 reachable encoding arms, found {len(arms)} (an arm is unreachable or was removed)", ctx.loc(f))
+    if len(arms) > 4:
+        extra = [evs[0] for pc, evs in arms.items()][4:]
+        rr.fail(f.qual, f"the documented format has four encodings (30 minutes / minutes / seconds / milliseconds); {len(arms)} writing arms are reachable: an extra arm writes values in a form (or before the +24h normalisation) that the reader's four cases do not undo", ctx.loc(f, extra[0]["call"]) if extra else ctx.loc(f))
     table_w = []
     for pc, evs in arms.items():
         rr.inst()
@@ -148,6 +152,16 @@ def r14_3_compact_milliseconds(ctx: Ctx) -> RuleResult:
                 rr.ok()
             else:
                 rr.fail(f.qual, f"write_byte argument `{unparse(ev['arg'])}` not proved inside [0, 255]: {v}", ctx.loc(f, ev["call"]))
+        elif ev["callee"].endswith("write_int32") or ev["callee"].endswith("write_int16"):
+            # multi-byte payloads carry header bits OR-ed onto a non-negative quantity (the value after the +24h shift): a negative
+            # operand sets every high bit and the header is lost
+            rr.inst()
+            v = ev["value"]
+            hi = 2**32 - 1 if ev["callee"].endswith("32") else 2**16 - 1
+            if isinstance(v, Iv) and v.within(0, hi):
+                rr.ok()
+            else:
+                rr.fail(f.qual, f"`{unparse(ev['arg'])[:60]}` is not proved inside [0, {hi}] ({v}): the quantity is written before it has been shifted into the non-negative range the format stores", ctx.loc(f, ev["call"]))
     # ---- reader table
     from ..oblig import interp
 
@@ -682,3 +696,40 @@ def _parents_until(n: ast.AST, stop: ast.AST) -> list[ast.AST]:
         out.append(p)
         p = getattr(p, "_parent", None)
     return out
+
+
+# ------------------------------------------------------------------------------------------- R14.13 chunked reads ask for what is left
+
+
+@rule("C14")
+def r14_13_chunked_reads_ask_for_the_rest(ctx: Ctx) -> RuleResult:
+    """A stream may return fewer bytes than asked (pipes, sockets, raw files); the reader therefore fills a buffer in a loop.  Each
+    read inside such a loop must ask for the bytes STILL MISSING (an expression of the target length minus what has been
+    collected); asking for the full length again reads into the next field as soon as one read comes back short."""
+    rr = RuleResult("R14.13", "every stream read inside a buffer-filling loop of the zone-data reader asks for the bytes still missing, not for the whole length again", min_instances=1)
+    M = ctx.M
+    for f in sorted(set(M.func_of_node.values()), key=lambda x: x.qual):
+        if isinstance(f.node, ast.Lambda) or not f.mod.rel.startswith("pyoda_time/time_zones/io/"):
+            continue
+        for w in own_nodes(f.node):
+            if not isinstance(w, ast.While):
+                continue
+            reads = [n for n in ast.walk(w) if isinstance(n, ast.Call) and isinstance(n.func, ast.Attribute) and n.func.attr == "read" and n.args]
+            grows = [n for n in ast.walk(w) if isinstance(n, ast.Call) and isinstance(n.func, ast.Attribute) and n.func.attr in ("extend", "append", "write")] + [n for n in ast.walk(w) if isinstance(n, ast.AugAssign) and isinstance(n.op, ast.Add)]
+            if not reads or not grows or "len(" not in unparse(w.test):
+                continue  # only loops whose condition measures the buffer being filled
+            defs = {}
+            for n in ast.walk(w):
+                if isinstance(n, ast.Assign) and len(n.targets) == 1 and isinstance(n.targets[0], ast.Name):
+                    defs[n.targets[0].id] = n.value
+                if isinstance(n, ast.NamedExpr):
+                    defs[n.target.id] = n.value
+            for r in reads:
+                rr.inst()
+                a = r.args[0]
+                e = defs.get(a.id, a) if isinstance(a, ast.Name) else a
+                if isinstance(e, ast.BinOp) and isinstance(e.op, ast.Sub) and "len(" in unparse(e.right):
+                    rr.ok({"function": f.qual, "asks for": unparse(e)})
+                else:
+                    rr.fail(f.qual, f"`{unparse(r)[:60]}` inside a buffer-filling loop does not ask for the remaining byte count (length - len(buffer)): after a short read it reads past the end of the value", ctx.loc(f, r))
+    return rr
